@@ -29,12 +29,13 @@ import (
 
 // meshYAML is the "mesh" world template: ServiceEntries (static with localities/networks/labels, DNS,
 // external TLS, per-namespace duplicates, private), DestinationRules (subsets, outlier detection +
-// failover priority, workloadSelector overrides, file-based MUTUAL, credentialName, ISTIO_MUTUAL),
+// failover priority, workloadSelector overrides, file-based MUTUAL, credentialName (Kubernetes secret and sds:// socket), ISTIO_MUTUAL),
 // (the DNS service with failoverPriority keeps its endpoints in one locality: with two localities CDS generation panics in
 // loadbalancer.applyFailoverPriorityPerLocality, index out of range - reported, outside this property.)
 // VirtualServices (subset routing, source-label match, namespace-private, gateway-bound), Sidecars
 // (workload-selected, namespace default), PeerAuthentications, EnvoyFilters (workload-selected, root
-// namespace with proxy version / proxy metadata matches), AuthorizationPolicy, Gateway.
+// namespace with unconditional, proxy-version-conditional and proxy-metadata-conditional patches of one class in ONE
+// filter), AuthorizationPolicy, Gateway.
 const meshYAML = `
 apiVersion: networking.istio.io/v1
 kind: ServiceEntry
@@ -87,6 +88,15 @@ spec:
   ports:
   - {number: 443, name: tls, protocol: TLS}
   - {number: 8443, name: http-ext, protocol: HTTP}
+---
+apiVersion: networking.istio.io/v1
+kind: ServiceEntry
+metadata: {name: ext2, namespace: ns1}
+spec:
+  hosts: [ext2.example.com]
+  location: MESH_EXTERNAL
+  resolution: DNS
+  ports: [{number: 8444, name: http-ext2, protocol: HTTP}]
 ---
 apiVersion: networking.istio.io/v1
 kind: ServiceEntry
@@ -198,6 +208,15 @@ spec:
     portLevelSettings:
     - port: {number: 8443}
       tls: {mode: SIMPLE, credentialName: ext-cred}
+---
+apiVersion: networking.istio.io/v1
+kind: DestinationRule
+metadata: {name: ext2-sds, namespace: ns1}
+spec:
+  host: ext2.example.com
+  workloadSelector: {matchLabels: {app: client}}
+  trafficPolicy:
+    tls: {mode: SIMPLE, credentialName: "sds://ext2-cred"}
 ---
 apiVersion: networking.istio.io/v1
 kind: DestinationRule
@@ -323,6 +342,9 @@ spec:
     match: {context: ANY, proxy: {metadata: {VERIF_TIER: gold}}, cluster: {service: static.example.com}}
     patch: {operation: MERGE, value: {per_connection_buffer_limit_bytes: 12345}}
   - applyTo: ROUTE_CONFIGURATION
+    match: {context: SIDECAR_OUTBOUND}
+    patch: {operation: MERGE, value: {request_headers_to_add: [{header: {key: x-mesh, value: "1"}}]}}
+  - applyTo: ROUTE_CONFIGURATION
     match: {context: SIDECAR_OUTBOUND, proxy: {metadata: {VERIF_TIER: gold}}}
     patch: {operation: MERGE, value: {request_headers_to_add: [{header: {key: x-tier, value: gold}}]}}
   - applyTo: ROUTE_CONFIGURATION
@@ -342,6 +364,8 @@ type worldTemplate struct {
 var netGateways = []model.NetworkGateway{
 	{Network: "n1", Cluster: "c1", Addr: "172.16.1.1", Port: 15443},
 	{Network: "n2", Cluster: "c2", Addr: "172.16.2.1", Port: 15443},
+	// an IPv6 address of the same gateway: which gateways a proxy can use depends on its IP family
+	{Network: "n2", Cluster: "c2", Addr: "2001:db8:2::1", Port: 15443},
 }
 
 func meshDefault() *meshconfig.MeshConfig { return mesh.DefaultMeshConfig() }
